@@ -7,10 +7,23 @@
    _global_copy), C14_lookup_scope (+ _top, _instr, _tasks, _end_of_file, _retry, _unknown, _unknown_name, _one_level), C14_diag_* (13),
    C14_examples.
 
+   C14_use_sites at IMAGE level is now proved for the project class of C05 (C14_use_sites_image_partial, at the end of the file):
+   for every project of Asm/LayoutMulti.C05_project_class (C05_project_class_def in Properties/C05.v: `.include` to any depth,
+   `.export`, `.global` before or after the definition, `.import` of valued names, sibling files reusing local names, forward
+   references across includes; a declared-but-unvalued name only as a bare operand `x`, not inside `x + 4`) on which the scoped two-pass reference
+   Asm/LayoutSpecExt.layout_spec_ext is defined, the pipeline succeeds and the 4 bytes of every `.du32 x` are in the final image at
+   the address the reference assigns and are the little-endian value of x in the FINAL table of the file instance the statement
+   stands in - the file's own labels / constants, what included files handed up by `.export` / `.global`, what it `.import`ed -,
+   whether x is defined before or after the use.  The scope oracle there is LayoutSpecExt's table per file instance (the oracle
+   of the C05 correspondence stream); an x that is NOT visible in that scope makes the reference undefined, and in the model the
+   retry of the statement is a diagnostic (C14_use_sites_invisible; C14_lookup_scope_unknown, the C14_diag_ theorems).
+
    NOT proved in full (kept as comments):
      C14_use_sites : pipeline fs path text = Done Success .. image -> for the project p of (fs, path): every `.du32 x` with index k
                      in judge_project p has its 4 bytes at j_base + 4k in image equal to the oracle's value (model |= ScopeSpec on
-                     the OUTPUT; decided by the stream on the implementation).
+                     the OUTPUT; decided by the stream on the implementation).  Proved as C14_use_sites_image_partial for the
+                     class above with LayoutSpecExt's tables as the oracle; not linked to ScopeSpec.judge_project (needs `occ`
+                     for every project text) and not for projects outside the class.
        Proved instead (the C14_use_sites_partial_ theorems): (a) _now / _later / _retry: the value a `.du32 x` writes is the value of x in the table
        C14_lookup_scope names (the file's own at the statement and at the end-of-file retry, the includer's at the last retry), as
        equations; (b) _provenance: every value in a file's final table comes from its own `.const` / label / `.import` / an included
@@ -29,6 +42,7 @@
 From Coq Require Import ZArith NArith List Bool String.
 From Trion Require Import Text.Types Asm.ScopeSpec Asm.CtxModel Asm.ScopeProofs Asm.Ctx06Proofs Asm.ScopeProofs2 Asm.ScopeIso Asm.ScopeValue Asm.ScopeProv Asm.ScopeRefine Asm.ScopeRefineEx Asm.ScopeComplete.
 From Trion Require Expr.EvalModel Text.ParseModel.
+From Trion Require Mem.DictSpec Asm.LayoutSpec Asm.LayoutSpecExt Asm.LayoutFinal Asm.LayoutMulti Asm.LayoutMultiTop Asm.LayoutMultiCheck.
 Import ListNotations.
 Open Scope N_scope.
 
@@ -315,3 +329,47 @@ Theorem C14_examples :
   j_verdict (judge_project (mkProject [(fR, [SAddr 256; SGlobal nA; SInclude fC; SConst nA 7]); (fC, [SImport nA; SConst nA 77; SUse nA])] fR)) = MustDiag RDuplicate /\
   j_verdict (judge_project (mkProject [(fR, [SAddr 256; SConst [82;48] 1])] fR)) = MustDiag RRegisterName.
 Proof. vm_compute. repeat split. Qed.
+
+(* ---- C14_use_sites at image level (for the project class of C05; proofs: Asm/LayoutMulti*.v) ----
+   placed = the reference's statements ((address, bytes), (file instance, item)); EF_of x2 id = the final table of file
+   instance id (x2 = the reference's final pass-1 state); the image is the runs of the dictionary image_dict_x placed.
+   Every `.du32 x` of file instance id: x has a value v in THAT instance's final table (so it is visible there), v fits 32
+   bits, and the image holds the 4 little-endian bytes of v at the statement's address. *)
+Theorem C14_use_sites_image_partial : forall dbg fs fuel path text els placed names x2, (8 <= fuel)%nat ->
+  LayoutMulti.parse_els text = Some els ->
+  LayoutSpecExt.layout_spec_ext (LayoutFinal.rel_fs fs path) LayoutMulti.parse_ref (map e_val els) = Some (placed, names) ->
+  LayoutMulti.C05_project_class fs path (map e_val els) ->
+  LayoutMulti.px_final (LayoutFinal.rel_fs fs path) LayoutMulti.parse_ref (map e_val els) = Some x2 ->
+  pipeline_gen dbg fs fuel path text = Done Success [] (DictSpec.runs (LayoutMulti.image_dict_x placed)) /\
+  forall a bs id x, In ((a, bs), (id, LayoutSpec.IData 4 (AIdent x))) placed ->
+    exists v, LayoutSpec.env_get (LayoutMulti.EF_of x2 id) x = Some v /\ is_register x = false /\ (0 <= v <= 4294967295)%Z /\
+      bs = le_n 4 (Z.to_N v) /\
+      forall i, i < 4 -> DictSpec.d_get (LayoutMulti.image_dict_x placed) (a + i) = nth_error (le_n 4 (Z.to_N v)) (N.to_nat i).
+Proof. exact LayoutMultiTop.project_use_sites. Qed.
+
+(* ... and a name that is not visible in the scope: the retry of `.du32 x` in a table that lacks x is a diagnostic (in the
+   file itself at the end of the file, g = false; in the includer, g = true) - the None arm of C14_use_sites_partial_retry *)
+Theorem C14_use_sites_invisible : forall dbg st d x t g, de_arg d = AIdent x -> eval_table st = Some t -> is_register x = false ->
+  tbl_get t x = None ->
+  run_task dbg st (DataTask d g) = Ret (Some Trivial) (push_error_in st (de_file d) (de_line d) (de_col d) (KApply AEval)).
+Proof. exact LayoutMultiTop.use_invisible. Qed.
+
+(* non-vacuity: the oracle's own two-file example (C14_examples: r = `.addr 0x100; .include "c"; .du32 A;`, c = `.const A, 7;
+   .export A;`): the image holds 7 at 0x100, the project is in the class, the reference's table of the root instance has A = 7;
+   without the `.export` the reference is undefined and the pipeline reports a diagnostic *)
+Local Open Scope string_scope.
+Theorem C14_use_sites_image_examples :
+  let src := Arm.DisplayModel.bytes_of_string in
+  let fs (c : String.string) : str -> option (list N) := fun v => if Arm.AsmStmtModel.str_eqb v (src "c") then Some (src c) else None in
+  let r := src ".addr 0x100; .include ""c""; .du32 A;" in
+  pipeline_gen false (fs ".const A, 7; .export A;") 8 (src "r") r = Done Success [] [(256, 259, [7; 0; 0; 0])] /\
+  match LayoutMulti.parse_ref r with
+  | Some prog =>
+      LayoutMultiCheck.project_check (fs ".const A, 7; .export A;") (src "r") prog = true /\
+      option_map (fun x2 => LayoutSpec.env_get (LayoutMulti.EF_of x2 1) (src "A"))
+                 (LayoutMulti.px_final (LayoutFinal.rel_fs (fs ".const A, 7; .export A;") (src "r")) LayoutMulti.parse_ref prog) = Some (Some 7%Z) /\
+      LayoutSpecExt.layout_spec_ext (LayoutFinal.rel_fs (fs ".const A, 7;") (src "r")) LayoutMulti.parse_ref prog = None
+  | None => False
+  end /\
+  match pipeline_gen false (fs ".const A, 7;") 8 (src "r") r with Done Failure (_ :: _) _ => True | _ => False end.
+Proof. vm_compute. repeat split; reflexivity. Qed.
